@@ -51,7 +51,7 @@ Proof.
 Qed.
 
 (* ---- "s extends s0": what a computation started at s0 may have piled on top of s0's stacks ---- *)
-Record extends (s0 s : state) (xs : list ctx) (ys : list nat) (k : nat) : Prop := {
+Record extends (s0 s : state) (xs : list ctx) (ys : list irec) (k : nat) : Prop := {
   ext_cs : cs s = xs ++ cs s0;
   ext_its : its s = ys ++ its s0;
   ext_refs : refs s = (k + refs s0)%nat }.
@@ -134,21 +134,17 @@ Definition snap_of (tf : tframe) (s0 : state) : Prop :=
 Lemma snap_new_frame : forall m c f s0, snap_of (new_frame m c f s0) s0.
 Proof. intros. unfold snap_of, new_frame. simpl. auto. Qed.
 
-Lemma restore_at_frame : forall cl tf s0 s xs ys k,
+Lemma restore_regs_frame : forall tf s0 s xs ys k,
   snap_of tf s0 -> extends s0 s xs ys k ->
-  let s' := restore_at cl tf s in
-  cs s' = cs s0 /\ its s' = its s0 /\ refs s' = refs s0 /\ stash s' = stash s0 /\ sp s' = sp s0 /\
+  let s' := restore_regs tf s in
+  cs s' = cs s0 /\ stash s' = stash s0 /\ sp s' = sp s0 /\
   (prg s', sb s', args s') = bottom_regs xs s /\
-  ts s' = ts s /\ log s' = (if cl then log s ++ map close_ev ys else log s) /\
+  its s' = its s /\ refs s' = refs s /\ ts s' = ts s /\ log s' = log s /\
   jq s' = jq s /\ intr s' = intr s /\ pcount s' = pcount s /\ trace s' = trace s /\ leaked s' = leaked s.
 Proof.
-  intros cl tf s0 s xs ys k (S1 & S2 & S3 & S4 & S5) [Hcs Hits Hrefs]. unfold restore_at. rewrite S1, S2, S3, S4, S5.
-  assert (Hlow_its : low (length (its s0)) (its s) = its s0) by (rewrite Hits; apply low_app_exact).
-  assert (Hdrop : firstn (length (its s) - length (its s0)) (its s) = ys) by (rewrite Hits; apply firstn_app_exact).
-  assert (Hmin : Nat.min (refs s0) (refs s) = refs s0) by lia.
+  intros tf s0 s xs ys k (S1 & S2 & S3 & S4 & S5) [Hcs Hits Hrefs]. unfold restore_regs. rewrite S1, S4, S5.
   destruct xs as [|x xs'].
-  - simpl in Hcs. rewrite Hcs, Nat.ltb_irrefl. unfold restore_stacks. cbn -[low firstn Nat.min Nat.sub].
-    rewrite Hlow_its, Hdrop, Hmin. destruct cl; repeat split; auto.
+  - simpl in Hcs. rewrite Hcs, Nat.ltb_irrefl. cbn. repeat split; auto.
   - destruct (@exists_last _ (x :: xs') ltac:(discriminate)) as (xs'' & c0 & Hx).
     unfold bottom_regs. rewrite Hx in Hcs |- *. rewrite last_last.
     assert (Hlt : Nat.ltb (length (cs s0)) (length (cs s)) = true).
@@ -156,11 +152,30 @@ Proof.
     rewrite Hlt.
     assert (Hn : nth_error (cs s) (length (cs s) - length (cs s0) - 1) = Some c0).
     { rewrite Hcs. apply nth_error_bottom. }
-    rewrite Hn. unfold restore_stacks. cbn -[low firstn Nat.min Nat.sub].
-    rewrite Hlow_its, Hdrop, Hmin.
+    rewrite Hn. cbn -[low].
     assert (Hlow_cs : low (length (cs s0)) (cs s) = cs s0) by (rewrite Hcs; apply low_app_exact).
     rewrite Hlow_cs. destruct (xs'' ++ [c0]) eqn:E. { apply app_eq_nil in E. destruct E. discriminate. }
-    destruct cl; repeat split; auto.
+    repeat split; auto.
+Qed.
+
+Lemma restore_at_frame : forall tf s0 s xs ys k,
+  snap_of tf s0 -> extends s0 s xs ys k ->
+  let s' := restore_at tf s in
+  cs s' = cs s0 /\ its s' = its s0 /\ refs s' = refs s0 /\ stash s' = stash s0 /\ sp s' = sp s0 /\
+  (prg s', sb s', args s') = bottom_regs xs s /\
+  ts s' = ts s /\ log s' = log s /\
+  jq s' = jq s /\ intr s' = intr s /\ pcount s' = pcount s /\ trace s' = trace s /\ leaked s' = leaked s.
+Proof.
+  intros tf s0 s xs ys k Sn Hx.
+  pose proof (restore_regs_frame tf s0 s xs ys k Sn Hx) as R. cbv zeta in R.
+  destruct R as (r1 & r2 & r3 & r4 & r5 & r6 & r7 & r8 & r9 & r10 & r11 & r12 & r13).
+  destruct Sn as (S1 & S2 & S3 & S4 & S5). destruct Hx as [Hcs Hits Hrefs].
+  unfold restore_at, restore_stacks. rewrite S2, S3.
+  remember (restore_regs tf s) as r eqn:Hr. clear Hr.
+  cbn -[low Nat.min]. rewrite r5, r6.
+  assert (Hlow_its : low (length (its s0)) (its s) = its s0) by (rewrite Hits; apply low_app_exact).
+  assert (Hmin : Nat.min (refs s0) (refs s) = refs s0) by lia.
+  rewrite Hlow_its, Hmin. repeat split; auto.
 Qed.
 
 (* handle_loop skips skippable frames *)
@@ -188,16 +203,16 @@ Lemma handle_loop_restores : forall p tf s0 above below s xs ys k,
   sp s' = (if negb (t_marker tf) && t_catch tf then sp s0 + 1 else sp s0) /\
   (prg s', sb s', args s') = bottom_regs xs s /\
   ts s' = flagged tf :: below /\
-  log s' = (if catchable p then log s ++ map close_ev ys else log s) /\
+  log s' = log s /\
   leaked s' = leaked s /\ jq s' = jq s /\ intr s' = intr s /\ pcount s' = pcount s /\ trace s' = trace s /\
   snd r = (if t_marker tf then OUnwound p
            else if t_catch tf then OCaught (length below) HCatch p else OCaught (length below) HFin p).
 Proof.
   intros p tf s0 above below s xs ys k Hsn Hns Hab Hext.
   rewrite (handle_loop_skip p above _ s Hab). cbn [handle_loop]. rewrite Hns.
-  pose proof (restore_at_frame (catchable p) tf s0 s xs ys k Hsn Hext) as R. cbv zeta in R.
+  pose proof (restore_at_frame tf s0 s xs ys k Hsn Hext) as R. cbv zeta in R.
   destruct R as (R1 & R2 & R3 & R4 & R5 & R6 & R7 & R8 & R9 & R10 & R11 & R12 & R13).
-  generalize dependent (restore_at (catchable p) tf s). intros r R1 R2 R3 R4 R5 R6 R7 R8 R9 R10 R11 R12 R13.
+  generalize dependent (restore_at tf s). intros r R1 R2 R3 R4 R5 R6 R7 R8 R9 R10 R11 R12 R13.
   unfold flagged.
   destruct (t_marker tf); [|destruct (t_catch tf)]; cbn; rewrite ?R5; repeat split; auto.
 Qed.
@@ -206,8 +221,8 @@ Lemma handle_loop_leaked : forall p fr s, leaked (fst (handle_loop p fr s)) = le
 Proof.
   induction fr as [|tf rest IH]; intros s; simpl; auto.
   destruct (skippable p tf); auto.
-  assert (L : leaked (restore_at (catchable p) tf s) = leaked s).
-  { unfold restore_at, restore_stacks.
+  assert (L : leaked (restore_at tf s) = leaked s).
+  { unfold restore_at, restore_stacks, restore_regs.
     destruct (Nat.ltb (t_csl tf) (length (cs s))); [destruct (nth_error (cs s) _)|]; reflexivity. }
   destruct (t_marker tf); [|destruct (t_catch tf)]; cbn; auto.
 Qed.
@@ -238,3 +253,68 @@ Qed.
 
 Lemma marker_not_skippable : forall p s, skippable p (new_frame true false false s) = false.
 Proof. intros. unfold skippable, new_frame. cbn. destruct (catchable p); reflexivity. Qed.
+
+(* ---- the target frame, and handleThrow after the registers have already been restored at it ---- *)
+Lemma target_spec : forall p fr tf rest, target p fr = Some (tf, rest) ->
+  exists above, fr = above ++ tf :: rest /\ forallb (skippable p) above = true /\ skippable p tf = false.
+Proof.
+  induction fr as [|a fr IH]; intros tf rest H; simpl in H. { discriminate. }
+  destruct (skippable p a) eqn:Sk.
+  - destruct (IH tf rest H) as (ab & E & F & N). exists (a :: ab). simpl. rewrite Sk, E. auto.
+  - inversion H; subst. exists []. auto.
+Qed.
+
+Lemma target_none : forall p fr s, target p fr = None -> handle_loop p fr s = (set_ts [] s, OUnwound p).
+Proof.
+  induction fr as [|a fr IH]; intros s H; simpl in *; auto.
+  destruct (skippable p a); [auto|discriminate].
+Qed.
+
+Lemma length_low : forall A n (l : list A), (n <= length l)%nat -> length (low n l) = n.
+Proof. intros. unfold low. rewrite skipn_length. lia. Qed.
+
+Lemma restore_regs_fields : forall tf s,
+  its (restore_regs tf s) = its s /\ refs (restore_regs tf s) = refs s /\ ts (restore_regs tf s) = ts s /\
+  sp (restore_regs tf s) = t_sp tf /\ stash (restore_regs tf s) = t_stash tf /\
+  log (restore_regs tf s) = log s /\ leaked (restore_regs tf s) = leaked s /\ jq (restore_regs tf s) = jq s /\
+  intr (restore_regs tf s) = intr s /\ pcount (restore_regs tf s) = pcount s /\ trace (restore_regs tf s) = trace s.
+Proof.
+  intros. unfold restore_regs.
+  destruct (Nat.ltb (t_csl tf) (length (cs s))); [destruct (nth_error (cs s) _)|]; cbn; auto 20.
+Qed.
+
+Lemma restore_regs_idem : forall tf s sm,
+  cs sm = cs (restore_regs tf s) -> prg sm = prg (restore_regs tf s) ->
+  sb sm = sb (restore_regs tf s) -> args sm = args (restore_regs tf s) ->
+  cs (restore_regs tf sm) = cs sm /\ prg (restore_regs tf sm) = prg sm /\
+  sb (restore_regs tf sm) = sb sm /\ args (restore_regs tf sm) = args sm.
+Proof.
+  intros tf s sm Hc Hp Hs Ha. unfold restore_regs in *.
+  destruct (Nat.ltb (t_csl tf) (length (cs s))) eqn:L.
+  - destruct (nth_error (cs s) (length (cs s) - t_csl tf - 1)) eqn:N.
+    + cbn -[low] in Hc. apply Nat.ltb_lt in L.
+      assert (Hl : length (cs sm) = t_csl tf) by (rewrite Hc; apply length_low; lia).
+      rewrite Hl, Nat.ltb_irrefl. cbn. auto.
+    + cbn in Hc. rewrite Hc, L, N. cbn. auto.
+  - cbn in Hc. rewrite Hc, L. cbn. auto.
+Qed.
+
+Lemma handle_after_regs : forall p tf rest s sm,
+  skippable p tf = false ->
+  regs sm = regs (set_ts (tf :: rest) (restore_regs tf s)) ->
+  regs (fst (handle_loop p (tf :: rest) sm)) = regs (fst (handle_loop p (tf :: rest) s)) /\
+  snd (handle_loop p (tf :: rest) sm) = snd (handle_loop p (tf :: rest) s).
+Proof.
+  intros p tf rest s sm Ns R. cbn [handle_loop]. rewrite Ns.
+  apply regs_inv in R. cbn -[restore_regs] in R. destruct R as (c1 & c2 & c3 & c4 & c5 & c6 & c7 & c8 & c9).
+  destruct (restore_regs_idem tf s sm c6 c4 c2 c3) as (i1 & i2 & i3 & i4).
+  destruct (restore_regs_fields tf s) as (f1 & f2 & _ & f4 & f5 & _).
+  destruct (restore_regs_fields tf sm) as (g1 & g2 & _ & g4 & g5 & _).
+  assert (E : sp (restore_at tf sm) = sp (restore_at tf s) /\ sb (restore_at tf sm) = sb (restore_at tf s) /\
+              args (restore_at tf sm) = args (restore_at tf s) /\ prg (restore_at tf sm) = prg (restore_at tf s) /\
+              stash (restore_at tf sm) = stash (restore_at tf s) /\ cs (restore_at tf sm) = cs (restore_at tf s) /\
+              its (restore_at tf sm) = its (restore_at tf s) /\ refs (restore_at tf sm) = refs (restore_at tf s)).
+  { unfold restore_at, restore_stacks. cbn -[low Nat.min restore_regs]. rewrite g1, g2, c8, c9, f1, f2. repeat split; congruence. }
+  destruct E as (e1 & e2 & e3 & e4 & e5 & e6 & e7 & e8).
+  destruct (t_marker tf); [|destruct (t_catch tf)]; cbn -[restore_at]; (split; [|reflexivity]); unfold regs; cbn -[restore_at]; congruence.
+Qed.
